@@ -572,3 +572,8 @@ from contracts import c19 as _c19, c09 as _c09
 _rr('C08', 'C19', 'C19.no_stateful_local_statics', 'C08.lemma.no_state_between_constructions', replay=history_replay)
 _rr('C08', 'C09', 'C09.constructor.Gauge_basis', 'C08.lemma.constructor.Gauge_basis')
 _rr('C08', 'C09', 'C09.constructor.Mass_basis', 'C08.lemma.constructor.Mass_basis')
+
+# the general THDM "reproduces the inputs it was constructed from" only if init_yukawas leaves the input Pi_f alone: C09's frame contract is a lemma of C08
+from contracts.shared import reregister as _rr_c08b
+from contracts import c09 as _c09_c08b
+_rr_c08b('C08', 'C09', 'C09.init_yukawas.frame', 'C08.lemma.init_yukawas.frame')
